@@ -13,7 +13,7 @@ variable {m n : Nat} [NeZero m] [NeZero n]
 theorem tie_concordance (A : Mat m n α) (o : Vec n Obj) (w : Vec n α) (a b : Fin m) :
     (Gen.concordance ⟨A⟩ ⟨fun j => (o j).sgn⟩ ⟨w⟩).v a b = Electre.concordance A o w a b := by
   simp only [Gen.concordance, Np.map_rows, Np.fill_diagonal_nan, Np.tile, Np.shape0, Np.subtract, Np.logical_or, Np.logical_and,
-    Np.equal, Np.less_equal, Np.multiply, Np.astype_int, Np.sum, Np.asarray, Np.squeeze, Bc.zw, Red.red, EMul.emul, Electre.concordance]
+    Np.equal, Np.less_equal, HLe.le, Np.multiply, Np.astype_int, Np.sum, Np.asarray, Np.squeeze, Bc.zw, Red.red, EMul.emul, Electre.concordance]
   split
   · rfl
   · congr 2; funext j
